@@ -74,7 +74,7 @@ def make_ops(rng, cfg, profile, tier):
         elif r < 0.955:
             ops.append({'op': 'REORDER_COLUMNS', 'a': [rng.randrange(2), rng.randrange(1 << 16)]})
         elif r < 0.97:
-            ops.append({'op': 'CHANGE_INIT', 'a': [rng.choice(['bf0', 'bf1']), rng.choice([0.0, 0.0, 0.75, -2.0])]})
+            ops.append({'op': 'CHANGE_INIT', 'a': [rng.choice(['bf0', 'bf1']), rng.choice([0.0, 0.0, 0.75, -2.0, 0.31, -1.17])]})
         elif r < 0.985:
             ops.append({'op': 'COPY_EVAL', 'a': [rng.randrange(nf), rng.randrange(2)]})
         else:
@@ -365,6 +365,33 @@ class Session:
                     if v3 is not None and (len(v3) != len(self.rows) or any(not ref.close(z_, w, 1e-10, 1e-12) for z_ in v3)):
                         ctx.fail('I01.value', f'engine over a table of {len(self.rows)} rows: {v3!r}, mathematical value {w!r} '
                                               f'on every row for {ast}')
+                    # the formula written with every occurrence of a parameter as an object of its own; one parameter is then
+                    # given another value by name: every occurrence takes it, on both evaluation paths
+                    used_b = sorted(n_ for n_ in ref.collect(ast, [])['beta'] if not n_.startswith('bf'))
+                    if used_b:
+                        tgt = used_b[a[0] % len(used_b)]
+                        newv = round(eb.BETA_VALUES[tgt] + 0.35, 4)
+                        try:
+                            w_new = ref.ev(ast, ref.Env({}, {**eb.BETA_VALUES, tgt: newv}))
+                        except (ref.RefError, OverflowError, ZeroDivisionError, ValueError, KeyError):
+                            w_new = None
+                        if w_new is not None and math.isfinite(w_new) and abs(w_new) < 1e6:
+                            e2 = ref.Builder(eb.beta_specs(), share_elementary=False).build(ast)
+                            e2.change_init_values({tgt: newv})
+                            try:
+                                vp_ = float(e2.get_value())
+                            except Exception:
+                                vp_ = None
+                            if vp_ is not None and not ref.close(vp_, w_new, 1e-10, 1e-12):
+                                ctx.fail('I01.py', f'pure-Python evaluator after change_init_values({{{tgt!r}: {newv}}}) on a formula '
+                                                   f'whose occurrences of {tgt} are distinct objects: {vp_!r}, mathematical value '
+                                                   f'{w_new!r} for {ast}')
+                            vc_ = self.lib('get_value_c after change_init_values on distinct objects of one name',
+                                           lambda: float(e2.get_value_c(prepare_ids=True)))
+                            if vc_ is not None and not ref.close(vc_, w_new, 1e-10, 1e-12):
+                                ctx.fail('I01.value', f'engine {vc_!r} after change_init_values({{{tgt!r}: {newv}}}), mathematical '
+                                                      f'value {w_new!r} for {ast}')
+                            ctx.probe('by-name value change on distinct parameter objects of one name')
                     v4 = self.lib('get_value_c of a variable-free formula, after an evaluation over a table',
                                   lambda: float(e.get_value_c(prepare_ids=True)))
                     if v4 is not None and not ref.close(v4, w, 1e-10, 1e-12):
@@ -399,7 +426,12 @@ class Session:
             nm_, val_ = a
             self.fixed_now = dict(getattr(self, 'fixed_now', {}), **{nm_: val_})
             for e_ in self.exprs.values():
-                e_.change_init_values({nm_: val_})
+                if int(abs(val_) * 100) % 2 == 0:
+                    e_.change_init_values({nm_: val_})
+                else:
+                    # the other way of giving a (fixed) parameter a value by name
+                    e_.fix_betas({nm_: val_})
+                    ctx.probe('fixed parameter given another value through fix_betas')
             self.builder.beta_specs[nm_] = (val_, None, None, 1)
             if nm_ in self.builder.betas and self.builder.betas[nm_].initValue != val_:
                 # the Beta object exists (it was built for some formula) but the library did not give it the value:
@@ -446,7 +478,12 @@ class Session:
             else:
                 b_ = ref.Builder(dict(self.builder.beta_specs), pool=self.pool, share_elementary=True)
                 original = b_.build(self.formulas[fi])
-                twin = copy.deepcopy(original)
+                if fi % 2:
+                    twin = copy.deepcopy(original)
+                else:
+                    # the copy written out again, every occurrence of a variable or parameter being an object of its own
+                    twin = ref.Builder(dict(self.builder.beta_specs), pool=self.pool, share_elementary=False).build(self.formulas[fi])
+                    ctx.probe('renaming on a formula whose elementary expressions are distinct objects of one name')
                 twin.rename_elementary(['c0'], suffix='_alt')
                 both = original + 2 * twin
                 free = {n_: v_ for n_, v_ in betas.items() if not n_.startswith('bf')}
